@@ -157,7 +157,7 @@ func RunCheck(c *Check, o Options) int {
 			if k := knownFor(known, f.Res.Violation); k != nil {
 				if !knownSeen[k.Text] {
 					knownSeen[k.Text] = true
-					fmt.Printf("KNOWN-FINDING: property=%s %s\n", c.Property, strings.TrimSpace(strings.TrimPrefix(k.Text, "known:")))
+					fmt.Printf("KNOWN-FINDING: %s\n", strings.TrimSpace(strings.TrimPrefix(k.Text, "known:")))
 				}
 				continue
 			}
@@ -368,7 +368,7 @@ func Replay(c *Check, path string, o Options, child bool) int {
 	fmt.Printf("  trace_hash=%s recorded=%s same=%v\n", res.TraceHash, rf.TraceHash, res.TraceHash == rf.TraceHash)
 	known, _ := LoadKnown(o.Root)
 	if k := knownFor(known, res.Violation); k != nil {
-		fmt.Printf("KNOWN-FINDING: property=%s %s\n", c.Property, strings.TrimSpace(strings.TrimPrefix(k.Text, "known:")))
+		fmt.Printf("KNOWN-FINDING: %s\n", strings.TrimSpace(strings.TrimPrefix(k.Text, "known:")))
 		return ExitOK
 	}
 	fmt.Printf("VIOLATION property=%s replay=%s\n", c.Property, path)
